@@ -156,6 +156,13 @@ def c04(run):
     _lzh_machine(run, [(314, 330, "lcg", 300), (314, 400, "zero", 300), (314, 400, "ff", 300), (314, 700, "aa", 800)], replay=False)
     # ... and its instances at the real constants: runs of equal literals across the capacity
     run.scen("MC_LzhRun", {"NSym": 314, "MaxCount": 65535})
+    # the bit cursor under the decoder: every walk of bit / byte reads on four inputs
+    for inp, depth in (("B0", 3), ("B1", 7), ("B2", 7), ("B3", 8 if run.thorough else 6)):
+        g = vlib.generate("BitReader", {"Depth": depth}, invariants=("Bounded", "Export"), properties=("Monotone",), workers=4, subst={"Input": inp})
+        run.add_model(g)
+        r = vlib.run_scenarios(run.harness("scen"), g["file"], run.pid)
+        run.traces += r["scenarios"]; run.steps += r["steps"]; run.add_mismatches(r["mismatches"])
+        run.part(f"BitReader {inp} depth {depth}", walks=g["n"], tlc_states=g["states"])
     # the drain interface as the code structures it (ring buffer + fill threshold), scaled constants: the queue never overruns for the
     # code's threshold formula MaxFill = W - M - 2 nor for the largest safe one, and TLC must find the overrun for W - M + 1 (anti-vacuity)
     drain_inv = ("NoOverrun", "RingHoldsUndelivered", "FillLevelIsWaiting", "GetDataContract", "IBufContract", "DeliveredInOrder")
